@@ -214,6 +214,16 @@ def run_case(case, schedule=None):
     for n, c in comps.items():
         hook(n, c)
     drv = NetDriver(comps)
+    go_log = []
+    if algo == "mgm2":
+        base_sender = drv._sender
+
+        def sender(src, dst, msg, prio=None, on_error=None):
+            if msg.type == "go?" and prio != 19:
+                go_log.append([vidx(src), comps[src].cycle_count, 1 if msg.go else 0])
+            base_sender(src, dst, msg, prio, on_error)
+        for comp in comps.values():
+            comp._msg_sender = sender
     real_do = drv.do
 
     def do(act):
@@ -250,6 +260,7 @@ def run_case(case, schedule=None):
     extra = {}
     if algo == "dsa":
         extra["fo_vc"] = probe_find_optimal_varcost()
+    extra["gos"] = go_log
     return dict(**extra, sched=sched, events=events, draws={str(vidx(k)): v for k, v in orc.draws.items()},
                 nodes=nodes, chans=chans, nbrs=nbrs, quiescent=1 if quiescent else 0,
                 finished={str(vidx(n)): k for n, k in finished.items()})
